@@ -69,7 +69,7 @@ def gen_v2_config(rng: random.Random, states: list, n: int, T: int, profile: dic
         o = {"kind": kind}
         r = rng.random()
         if r < profile.get("own_times_p", 0.35):
-            o["evaluation_times"] = G.pick(rng, [[0.0, 0.5, 1.0], [1.0], [0.25, 0.75], [0.5]])
+            o["evaluation_times"] = G.pick(rng, [[0.0, 0.5, 1.0], [1.0], [0.25, 0.75], [0.5], [0.2, 0.35, 0.7, 0.9], [0.41, 0.57, 0.83, 1.0], [0.07, 0.47, 0.69, 0.94, 0.95]])
         if kind in ("BitStrings", "Occupation", "CorrelationMatrix"):
             if not two_level or rng.random() < 0.3:
                 o["one_state"] = one or G.pick(rng, [s for s in states if s != "g"] or states)
@@ -77,6 +77,9 @@ def gen_v2_config(rng: random.Random, states: list, n: int, T: int, profile: dic
             o["num_shots"] = G.pick(rng, [500, 2000])
         if kind == "Fidelity":
             o["amplitudes"] = gen_amplitudes(rng, states, n)
+            if rng.random() < 0.4:
+                # a MIXED reference state: 0.6 |phi><phi| + 0.4 |chi><chi|
+                o["amplitudes2"] = gen_amplitudes(rng, states, n)
         if kind == "Expectation":
             o["operator"] = gen_operator(rng, states, n)
         obs.append(o)
@@ -139,6 +142,14 @@ def build_v2_config(spec: dict, states: list, n: int):
             kw["num_shots"] = o["num_shots"]
         if k == "Fidelity":
             st = QutipState.from_state_amplitudes(eigenstates=tuple(states), amplitudes={a: _c(v) for a, v in o["amplitudes"].items()})
+            if "amplitudes2" in o:
+                import qutip
+
+                phi = amplitudes_vector(o["amplitudes"], states, n)
+                chi = amplitudes_vector(o["amplitudes2"], states, n)
+                ref = 0.6 * np.outer(phi, phi.conj()) + 0.4 * np.outer(chi, chi.conj())
+                dims = st.to_qobj().dims[0]
+                st = QutipState(qutip.Qobj(ref, dims=[dims, dims]), eigenstates=tuple(states))
             obs.append(pb.Fidelity(st, **kw))
             continue
         if k == "Expectation":
@@ -338,6 +349,15 @@ def _one(ctx, spec, states, n, T, seed, run, profile) -> bool:
     tol = 0.5 / T
     default = spec["default_evaluation_times"]
     own_all = sorted({x for o in spec["observables"] for x in (o.get("evaluation_times") or [])})
+    # requested instants (of ANY observable, or the default list) less than 1 ns
+    # apart are below the emulator's resolution: its documented matching
+    # tolerance of half a nanosecond then assigns one instant to two requests,
+    # which the statement ("one value per requested evaluation time") does not
+    # settle; counted, not judged
+    req_all = sorted(set(own_all) | (set() if default == "Full" else set(default)))
+    below_res = any(0 < b - a < 1.0 / T for a, b in zip(req_all, req_all[1:]))
+    if below_res:
+        stats["runs_with_requested_times_below_1ns_resolution"] += 1
     by_tag = {}
     for o_spec, o in zip(spec["observables"], cfg.observables):
         by_tag[o.tag] = (o_spec, o)
@@ -357,9 +377,18 @@ def _one(ctx, spec, states, n, T, seed, run, profile) -> bool:
         else:
             want = list(own) if own is not None else list(default)
             mtol = tol
+        # one-to-one: a stored time belongs to the NEAREST requested time (two
+        # requested times can be closer to each other than the matching tolerance
+        # 0.5/T of a very short sequence)
+        nearest = {}
+        for t in times:
+            if want:
+                w0 = min(want, key=lambda w: abs(t - w))
+                if abs(t - w0) <= mtol:
+                    nearest.setdefault(w0, []).append(t)
         for w in want:
-            hits = [t for t in times if abs(t - w) <= mtol]
-            if len(hits) != 1:
+            hits = nearest.get(w, [])
+            if len(hits) != 1 and not (below_res and len(hits) >= 1):
                 oid = "C20/times-full-grid" if default == "Full" else "C20/times-missing-or-unordered"
                 ctx.viol(oid, 0, f"{o.tag}: requested time {w} has {len(hits)} stored values (stored {[float(x) for x in times[:10]]}, T={T}, default {default}, own {own})")
                 break
@@ -445,8 +474,11 @@ def _one(ctx, spec, states, n, T, seed, run, profile) -> bool:
                 exp = np.trace(rho @ H @ H).real - np.trace(rho @ H).real ** 2
             elif k == "Fidelity":
                 phi = amplitudes_vector(o_spec["amplitudes"], states, n)
-                phi = phi / np.linalg.norm(phi) if False else phi
                 exp = (phi.conj() @ rho @ phi).real
+                if "amplitudes2" in o_spec:
+                    chi = amplitudes_vector(o_spec["amplitudes2"], states, n)
+                    exp = 0.6 * exp + 0.4 * (chi.conj() @ rho @ chi).real
+                    stats["probe/fidelity_mixed_reference" + ("_mixed_state" if not pure else "")] += 1
             elif k == "Expectation":
                 exp = np.trace(rho @ operator_matrix(o_spec["operator"], states, n))
             if exp is not None:
